@@ -344,7 +344,11 @@ def sc_ldl(V, P, cfg):
             if not hasattr(V.c, "witness_prefs"):
                 V.c.witness_prefs = []
             V.c.witness_prefs.extend(prefs)
-    s = SolverDenseLDL(hermitian=cfg["hermitian"])
+    if cfg.get("ctor"):
+        # the documented constructor shortcut: the matrix is handed to the constructor (which calls update itself)
+        s = SolverDenseLDL(A) if cfg["hermitian"] is None else SolverDenseLDL(A, hermitian=cfg["hermitian"])
+    else:
+        s = SolverDenseLDL(hermitian=cfg["hermitian"])
     if cfg.get("prior"):
         A0 = _empty(V, (n, n), ac)
         for i in range(n):
@@ -352,7 +356,8 @@ def sc_ldl(V, P, cfg):
         A0 = _fin(V, A0)
         _register(V, "ldl", (np.eye(n, dtype=int).astype(object) if V.symbolic else np.eye(n), A0, np.arange(n)))
         s.update(A0)
-    s.update(A)
+    if not cfg.get("ctor"):
+        s.update(A)
     if P is not None and cfg["hermitian"] is None:
         # auto-detection: the flag the solver settled on must describe the matrix on this path
         o = P.holds("ldl:auto-flag", _is_herm(A) if s.hermitian else _is_sym(A), kind="ldl:auto-flag")
@@ -930,7 +935,9 @@ def sc_cg(V, P, cfg):
         with warnings.catch_warnings(record=True) as wl:
             warnings.simplefilter("always")
             try:
-                x = s.solve(b.copy(), x0=(None if x0 is None else x0.copy()), trans=t)
+                b_arg = b.copy()
+                x0_arg = None if x0 is None else x0.copy()
+                x = s.solve(b_arg, x0=x0_arg, trans=t)
             except ValueError as e:
                 # np.stack([]) in orth(): every candidate direction was dropped.  Only the exact-zero test `beta_i == 0` taken
                 # on its true side (an equality atom as the last branch condition) is accepted as a cut; anything else is
@@ -956,9 +963,20 @@ def sc_cg(V, P, cfg):
         from symx.ctx import PathAbort
         raise _Breakdown("zero search direction (breakdown) excluded")
     obs = dict(x=x, warned=int(warned), A=A, b=b, nsnap=len(snaps))
+    if not V.symbolic:
+        obs["_chg:rhs"] = float(np.max(np.abs(np.asarray(b_arg, dtype=complex) - np.asarray(b, dtype=complex))))
+        obs["_chg:x0"] = 0.0 if x0 is None else float(np.max(np.abs(np.asarray(x0_arg, dtype=complex) - np.asarray(x0, dtype=complex))))
+        obs["_chg:alias"] = 0.0 if x0 is None else float(x is x0_arg or np.shares_memory(np.asarray(x), np.asarray(x0_arg)))
     for i_, (r_, x_) in enumerate(snaps[:3]):
         obs["snap_r%d" % i_], obs["snap_x%d" % i_] = _fin(V, r_), _fin(V, x_)
     if P is not None:
+        # the caller's arrays are left alone and are not handed back as the result
+        P.arrays_eq("cg:rhs-unchanged", np.asarray(b_arg).reshape(n, ncol), bm, kind="cg:arguments-unchanged")
+        if x0 is not None:
+            P.arrays_eq("cg:x0-unchanged", np.asarray(x0_arg).reshape(n, ncol), np.asarray(x0).reshape(n, ncol),
+                        kind="cg:arguments-unchanged")
+            P.holds("cg:result-is-not-the-x0-object", x is not x0_arg and not np.shares_memory(np.asarray(x), np.asarray(x0_arg)),
+                    kind="cg:arguments-unchanged")
         P.holds("cg:shape", np.shape(x) == shp, kind="cg:shape")
         P.holds("cg:residual-norm-observed", len(snaps) >= 1, kind="cg:invariant")
         t_keep = P.timeout_ms
@@ -1363,6 +1381,12 @@ def items(tier):
                 variant="herm", prior=True)
         if ac:
             add("ldl", "auto-csym-n2-%s" % tag, n=2, perm=[1, 0], ac=ac, xc=xc, hermitian=None, fherm=False, variant="auto-csym")
+            add("ldl", "auto-csym-ctor-n2-%s" % tag, n=2, perm=[1, 0], ac=ac, xc=xc, hermitian=None, fherm=False, variant="auto-csym",
+                ctor=True)
+        if tag != "rc":
+            add("ldl", "auto-herm-ctor-n2-%s" % tag, n=2, perm=[1, 0], ac=ac, xc=xc, hermitian=None, fherm=True, variant="auto-herm",
+                ctor=True)
+            add("ldl", "herm-ctor-n2-%s" % tag, n=2, perm=[0, 1], ac=ac, xc=xc, hermitian=True, fherm=True, variant="herm", ctor=True)
     if not q:
         add("ldl", "auto-herm-n3-c", n=3, perm=[2, 0, 1], ac=True, xc=True, hermitian=None, fherm=True, variant="auto-herm")
         add("ldl", "auto-csym-n3-c", n=3, perm=[2, 0, 1], ac=True, xc=True, hermitian=None, fherm=False, variant="auto-csym")
@@ -1595,6 +1619,9 @@ def replay(cfg, label, env, case):
         A, b, x = np.asarray(obs["A"], dtype=complex), np.asarray(obs["b"], dtype=complex), np.asarray(obs["x"], dtype=complex)
         if label == "cg:shape":
             return dict(reproduced=bool(x.shape != b.shape), detail=dict(shape_x=list(x.shape), shape_b=list(b.shape)))
+        for pre, key in (("cg:rhs-unchanged", "_chg:rhs"), ("cg:x0-unchanged", "_chg:x0"), ("cg:result-is-not-the-x0-object", "_chg:alias")):
+            if label.startswith(pre):
+                return dict(reproduced=bool(obs.get(key, 0.0) > 0), detail={"clause": pre, "observed_on_the_real_library": obs.get(key, 0.0)})
         ncol = 1 if b.ndim == 1 else b.shape[1]
         M = _op(A, cfg["trans"])
         bm = b.reshape(2, ncol)
